@@ -13,10 +13,12 @@ import (
 	"io"
 	"io/ioutil"
 	"os"
+	"runtime"
 	"sort"
 	"strconv"
 	"strings"
 	"sync"
+	"time"
 
 	. "vh/lib"
 	"vh/sched"
@@ -345,6 +347,66 @@ func runCase(c Val) Val {
 	return L(outs...)
 }
 
+func curGoid() int64 {
+	var buf [64]byte
+	n := runtime.Stack(buf[:], false)
+	f := strings.Fields(string(buf[:n]))
+	id, _ := strconv.ParseInt(f[1], 10, 64)
+	return id
+}
+
+// goState returns the scheduler state of a goroutine ("sync.RWMutex.Lock", "runnable", ...), "" if it is gone.
+func goState(id int64) string {
+	buf := make([]byte, 1<<18)
+	for {
+		n := runtime.Stack(buf, true)
+		if n < len(buf) {
+			buf = buf[:n]
+			break
+		}
+		buf = make([]byte, 2*len(buf))
+	}
+	head := []byte("goroutine " + strconv.FormatInt(id, 10) + " ")
+	for _, blk := range bytes.Split(buf, []byte("\n\n")) {
+		if bytes.HasPrefix(blk, head) {
+			line := blk
+			if i := bytes.IndexByte(blk, '\n'); i >= 0 {
+				line = blk[:i]
+			}
+			lb, rb := bytes.IndexByte(line, '['), bytes.LastIndexByte(line, ']')
+			if lb >= 0 && rb > lb {
+				return string(line[lb+1 : rb])
+			}
+		}
+	}
+	return ""
+}
+
+// stableStatus: the controller's Settle can return while a goroutine is only momentarily off the CPU (disk I/O,
+// a loaded machine).  A thread counts as blocked only when it really waits for the playlist RW lock; otherwise
+// wait until it is parked at a point or done.
+func stableStatus(ctl *sched.Ctl, name string, id *int64, mu *sync.Mutex) string {
+	for i := 0; i < 200000; i++ {
+		st := ctl.Status(name)
+		if st != "blocked" {
+			return st
+		}
+		mu.Lock()
+		g := *id
+		mu.Unlock()
+		if g != 0 && strings.HasPrefix(goState(g), "sync.RWMutex") {
+			// confirm: still so a moment later
+			time.Sleep(100 * time.Microsecond)
+			if ctl.Status(name) == "blocked" && strings.HasPrefix(goState(g), "sync.RWMutex") {
+				return "blocked"
+			}
+			continue
+		}
+		time.Sleep(50 * time.Microsecond)
+	}
+	return "blocked"
+}
+
 // runLts replays a schedule of the fetch/rollover transition system (coq/Model/C10HlsLts.v) on the real
 // Playlist/SegmentGenerator.  The writer goroutine parks before every frame; a fetch goroutine parks at the
 // schedule point hls.segment.get (segment found, in the code as it is still holding the playlist read lock).
@@ -386,9 +448,14 @@ func runLts(c Val) Val {
 	stop := false
 	var wg sync.WaitGroup
 	frames := c.At(1).List()
+	var writerID int64
+	wstatus := func() string { return stableStatus(ctl, "writer", &writerID, &mu) }
 	wg.Add(1)
 	ctl.Go("writer", func() {
 		defer wg.Done()
+		mu.Lock()
+		writerID = curGoid()
+		mu.Unlock()
 		for _, fv := range frames {
 			ctl.Here("w.frame")
 			mu.Lock()
@@ -408,9 +475,11 @@ func runLts(c Val) Val {
 		}
 	})
 	ctl.Step("writer") // from h.start to the first w.frame
+	wstatus()
 
 	type fetch struct {
 		name   string
+		goid   int64
 		parked bool // it reached hls.segment.get: the lookup found the segment
 		res    Val  // set by the goroutine when Segment returned
 		done   bool
@@ -421,12 +490,13 @@ func runLts(c Val) Val {
 	for _, lab := range c.At(2).List() {
 		switch lab.At(0).Int() {
 		case 0:
-			if st := ctl.Status("writer"); st == "w.frame" {
+			if wstatus() == "w.frame" {
 				ctl.Step("writer")
+				wstatus()
 			}
 		case 1:
 			id, seq := lab.At(1).Int(), int(lab.At(2).Int())
-			if ctl.Status("writer") == "blocked" || byID[id] != nil {
+			if wstatus() == "blocked" || byID[id] != nil {
 				break
 			}
 			ft := &fetch{name: "f" + strconv.FormatInt(id, 10)}
@@ -435,6 +505,9 @@ func runLts(c Val) Val {
 			wg.Add(1)
 			ctl.Go(ft.name, func() {
 				defer wg.Done()
+				mu.Lock()
+				ft.goid = curGoid()
+				mu.Unlock()
 				var out Val
 				func() {
 					defer func() {
@@ -455,15 +528,17 @@ func runLts(c Val) Val {
 				mu.Unlock()
 			})
 			ctl.Step(ft.name)
-			if ctl.Status(ft.name) == "hls.segment.get" {
+			if stableStatus(ctl, ft.name, &ft.goid, &mu) == "hls.segment.get" {
 				ft.parked = true
 			}
 		default:
-			if ft := byID[lab.At(1).Int()]; ft != nil && ctl.Status(ft.name) == "hls.segment.get" {
+			if ft := byID[lab.At(1).Int()]; ft != nil && stableStatus(ctl, ft.name, &ft.goid, &mu) == "hls.segment.get" {
 				ctl.Step(ft.name)
+				stableStatus(ctl, ft.name, &ft.goid, &mu)
+				wstatus()
 			}
 		}
-		blocked = append(blocked, Bo(ctl.Status("writer") == "blocked"))
+		blocked = append(blocked, Bo(wstatus() == "blocked"))
 	}
 	results := []Val{}
 	for _, ft := range order {
